@@ -88,9 +88,29 @@ let clauses_textdiff h impl =
           check_ops_loose (item_oracles oa na).o_on O (ni (Array.length oa)) O (ni (Array.length na)) ops
       | _ -> false
     in
+    let exact =
+      huge ||
+      match (otoks, ntoks) with
+      | Some a, Some b ->
+          let oa = Array.of_list (List.map (fun t -> str_of (tok_bytes o t)) a)
+          and na = Array.of_list (List.map (fun t -> str_of (tok_bytes n t)) b) in
+          check_ops_exact (item_oracles oa na).o_on O (ni (Array.length oa)) O (ni (Array.length na)) ops
+      | _ -> false
+    in
+    let normal =
+      huge ||
+      match (otoks, ntoks) with
+      | Some a, Some b ->
+          let oa = Array.of_list (List.map (fun t -> str_of (tok_bytes o t)) a)
+          and na = Array.of_list (List.map (fun t -> str_of (tok_bytes n t)) b) in
+          check_normal (item_oracles oa na).o_on ops
+      | _ -> false
+    in
     let dl = match Hashtbl.find_opt h "dl" with Some s -> parse_opt s | None -> None in
     let nlo = get_def h "nlo" "-" in
     [ ("no_panic", true);
+      ("normal", normal);
+      ("ops_exact", exact);
       ("tokens_lossless", lossless);
       ("reconstruct_old", vals (not_tag "I") = o);
       ("reconstruct_new", vals (not_tag "D") = n);
